@@ -304,6 +304,10 @@ func buildTar(es []ent) ([]byte, error) {
 			}
 		case "d":
 			h.Typeflag = tar.TypeDir
+		case "l":
+			// symbolic link; the content field of the entry is the link target
+			h.Typeflag = tar.TypeSymlink
+			h.Linkname = string(e.content)
 		default:
 			h.Typeflag = tar.TypeSymlink
 			h.Linkname = "../elsewhere"
@@ -827,6 +831,84 @@ func (g *gen) archive(tarKinds bool) []ent {
 	return es
 }
 
+// symlinkChain makes a tar archive in which every link target is a local path
+// by itself (no leading `..`, not absolute), but the links compose to a place
+// above the destination: cur -> ., up -> cur/.., then an entry through `up`.
+// An extractor that creates links must not follow them when it writes; the
+// code as read refuses every link entry.  The chain climbs at most three
+// levels, so even a careless extractor stays inside the snapshotted root.
+func (g *gen) symlinkChain() []ent {
+	names := []string{"cur", "up", "l3", "a", "lnk", "sub/l", ".h"}
+	var es []ent
+	if g.r.Intn(3) == 0 {
+		es = append(es, ent{[]byte("sub"), "d", 0o755, nil})
+	}
+	k := 2 + g.r.Intn(2)
+	perm := g.r.Intn(len(names))
+	var links []string
+	for i := 0; i < k; i++ {
+		nm := names[(perm+i)%len(names)]
+		var target string
+		switch {
+		case i == 0 && strings.Contains(nm, "/"):
+			target = "."
+		case i == 0:
+			target = hx.Pick(g.r, []string{".", "./", "x/..", "."})
+		default:
+			target = links[i-1] + "/.."
+			if g.r.Intn(4) == 0 {
+				target = "./" + target
+			}
+		}
+		links = append(links, nm)
+		es = append(es, ent{[]byte(nm), "l", 0o777, []byte(target)})
+	}
+	if g.r.Intn(4) == 0 && len(es) >= 2 {
+		// the later link first: it dangles when it is created
+		n := len(es)
+		es[n-1], es[n-2] = es[n-2], es[n-1]
+	}
+	last := links[len(links)-1]
+	leaf := hx.Pick(g.r, []string{"x", "sib.txt", "evil.txt", "dest2/x", "newdir/f", "dest/../y"})
+	if g.r.Intn(3) == 0 {
+		es = append(es, ent{[]byte(last + "/" + leaf), "d", g.dirPerm(), nil})
+	} else {
+		es = append(es, ent{[]byte(last + "/" + leaf), "r", g.filePerm(), g.content()})
+	}
+	if g.r.Intn(3) == 0 {
+		es = append(es, ent{[]byte(hx.Pick(g.r, plainPool)), "r", g.filePerm(), g.content()})
+	}
+	return es
+}
+
+// symlinkOps: crafted and random link chains, plus benign links that stay inside.
+func (g *gen) symlinkOps(n int) {
+	d := hx.Hex([]byte(absDest))
+	l := func(name, target string) ent { return ent{[]byte(name), "l", 0o777, []byte(target)} }
+	f := func(name string) ent { return ent{[]byte(name), "r", 0o644, []byte("via link")} }
+	crafted := [][]ent{
+		{l("cur", "."), l("up", "cur/.."), f("up/x")},
+		{l("cur", "."), l("up", "cur/.."), f("up/sib.txt")},
+		{l("cur", "."), l("up", "cur/.."), {[]byte("up/newdir"), "d", 0o755, nil}},
+		{l("a", "."), l("b", "a/.."), l("c", "b/.."), f("c/x")},
+		{l("l1", "l2/.."), l("l2", "."), f("l1/x")},
+		{{[]byte("d"), "d", 0o755, nil}, l("d/l", "."), l("up", "d/l/../.."), f("up/x")},
+		{l("in", "a"), {[]byte("a"), "d", 0o755, nil}, f("in/x")},
+		{l("self", "."), f("self/self/x")},
+		{l("up", ".."), f("up/x")},
+	}
+	for _, es := range crafted {
+		for _, pre := range [][]ent{nil, preStates[3]} {
+			g.add(fmt.Sprintf("untar dir=%s pre=%s ents=%s", d, fmtEnts(pre), fmtEnts(es)), true)
+			g.rep.Count("op:untar-symlink-chain")
+		}
+	}
+	for i := 0; i < n; i++ {
+		g.add(fmt.Sprintf("untar dir=%s pre=%s ents=%s", d, fmtEnts(hx.Pick(g.r, preStates)), fmtEnts(g.symlinkChain())), true)
+		g.rep.Count("op:untar-symlink-chain")
+	}
+}
+
 func (g *gen) extractOps(n int) {
 	for i := 0; i < n; i++ {
 		pre := hx.Pick(g.r, preStates)
@@ -1122,6 +1204,7 @@ func main() {
 		g.smallScope(k)
 		g.pathOps(np)
 		g.extractOps(nx)
+		g.symlinkOps(nx / 10)
 		g.roundTripOps(nrt)
 		g.tarZipOps(ntz)
 		ops = append(ops, g.ops...)
